@@ -165,6 +165,10 @@ class QvmEval(EvaluationContext):
             segment = cell_value.value.segment
             base_idx = cell_value.value.index
             cell_value = segment.get_cell(base_idx)
+        elif base_type.is_array and not base_type.is_static_array:
+            # a dynamic array is a reference to its storage, which
+            # does not exist before its DIM statement has run
+            raise EvalError('Array not initialized')
 
         if not base_type.is_array and not base_type.is_user_defined:
             if cell_value is None:
